@@ -7,7 +7,7 @@
 From Coq Require Import List ZArith NArith Bool Arith.
 Import ListNotations.
 From RV Require Import Lib.Str Model.DataFile Proofs.DataFileP.
-From RV Require Import Gen.GenFacts.
+From RV Require Import Gen.GenFactsPersist.
 
 (** Right after the crash, for every cut: the file loads, and exactly the data points whose lines
     arrived completely are there - each once, whole, for the right run (j of them, where the lines
